@@ -352,7 +352,7 @@ def probe_data(stack, shape, path, direction):
         else:
             cls = "wrong-items"
         vs.append(V("data-%s:%s" % (direction, cls),
-                    "layer %d was handed %d item(s) on %s, the model says %d" % (l, len(g), direction, len(x)),
+                    "%s: layer %d was handed %d item(s) on %s, the model says %d" % (cls, l, len(g), direction, len(x)),
                     shape, path, probe, {"layer": l, "got": g[:8], "expected": x[:8], "layers_off": bad[:8]}))
     if _queue().qsize():
         vs.append(V("data-%s:queued" % direction, "data left callbacks in the detached queue", shape, path, probe, None))
